@@ -5,7 +5,7 @@
                 over F_p2:                 inf | x0:x1,y0:y1
                 Edwards:                   x,y            (identity is 0,1)
    commands     PARAMS c | GEN c | ADD c P Q | SUB c P Q | DBL c P | NEG c P | EQ c P Q | ISID c P
-                ONC c x,y | MUL c k lebytes P | MSM c k;lebytes;P ... | EDMONT x,y
+                ONC c x,y | MUL c k lebytes P | MSM c k;lebytes;P ... | MSMN (naive sum only) | EDMONT x,y
                 F field op x [y]      field = <curve>.p | <curve>.n | g2.p2 *)
 open Model
 open Helpers
@@ -45,6 +45,7 @@ type grp = {
   onc : string -> string;
   mul : Big_int_Z.big_int -> Big_int_Z.big_int list -> string -> string;   (* naive, window *)
   msm : (Big_int_Z.big_int * Big_int_Z.big_int list * string) list -> string; (* naive, code *)
+  msmn : (Big_int_Z.big_int * Big_int_Z.big_int list * string) list -> string; (* naive only *)
 }
 
 let mk parse show ~params ~gen ~add ~sub ~dbl ~neg ~eq ~isid ~onc ~mul ~smw ~msm ~msmcode : grp = {
@@ -62,6 +63,10 @@ let mk parse show ~params ~gen ~add ~sub ~dbl ~neg ~eq ~isid ~onc ~mul ~smw ~msm
     and bs = List.map (fun (_, b, _) -> b) l
     and ps = List.map (fun (_, _, p) -> parse p) l in
     show (msm ks ps) ^ " " ^ (match msmcode ps bs with None -> "PANIC" | Some r -> show r));
+  msmn = (fun l ->
+    let ks = List.map (fun (k, _, _) -> k) l
+    and ps = List.map (fun (_, _, p) -> parse p) l in
+    show (msm ks ps));
 }
 
 let is_none = function None -> true | Some _ -> false
@@ -90,7 +95,7 @@ let mk_m (c : mparams) : grp =
     | k :: ks', p :: ps' -> m_add c (m_mul c k p) (msm ks' ps')
     | _, _ -> None in
   mk (parse_opt parse_fp) (show_opt show_fp)
-    ~params:(fun () -> String.concat " " (List.map hz [c.mp_p; c.mp_A; c.mp_gu; c.mp_gv; c.mp_n; c.mp_h; c.mp_c]))
+    ~params:(fun () -> String.concat " " (List.map hz [c.mp_p; c.mp_A; c.mp_gu; c.mp_gv; c.mp_n; c.mp_h]))
     ~gen:(m_gen c) ~add:(m_add c) ~sub ~dbl:(m_double c) ~neg:(m_neg c)
     ~eq:(fun p q -> p = q || (match p, q with
         | Some (a, b), Some (a', b') -> Big_int_Z.eq_big_int a a' && Big_int_Z.eq_big_int b b'
@@ -169,6 +174,7 @@ let () =
         | ["ONC"; c; p] -> (grp c).onc p
         | ["MUL"; c; k; b; p] -> (grp c).mul (zh k) (bytes_of_hex b) p
         | "MSM" :: c :: terms -> (grp c).msm (List.map parse_term terms)
+        | "MSMN" :: c :: terms -> (grp c).msmn (List.map parse_term terms)
         | ["EDMONT"; p] -> show_opt show_fp (m_of_ed curve25519_params (parse_pair p))
         | ["MONTED"; p] -> show_pair (m_to_ed curve25519_params (parse_opt parse_fp p))
         | "F" :: f :: op :: args -> field_op f op args
